@@ -271,7 +271,10 @@ fn gen_fields(r: &mut Rng, u: &Universe, cfg: &GenCfg, enc: Encoding, shape: Sha
         if all_optional && ty == Ty::Param { ty = Ty::U8 }
         let tag = if r.chance(18) { Some(*r.pick(&TAGS)) } else { None };
         let b = match ty { Ty::CowStr | Ty::CowBytes => r.chance(60), Ty::Str | Ty::BytesSlice | Ty::ByteSliceRef => r.chance(50), _ => must_be_b(&ty, u) };
-        let fwd = if cfg.allow_custom && matches!(ty, Ty::U8 | Ty::U16 | Ty::U32 | Ty::U64 | Ty::I8 | Ty::I16 | Ty::I32 | Ty::I64 | Ty::Bool | Ty::Char | Ty::F32 | Ty::F64 | Ty::String | Ty::ByteVec) && r.chance(12) { 1 + r.below(3) as u8 } else { 0 };
+        let fwd = if cfg.allow_custom && matches!(ty, Ty::U8 | Ty::U16 | Ty::U32 | Ty::U64 | Ty::I8 | Ty::I16 | Ty::I32 | Ty::I64 | Ty::Bool | Ty::Char | Ty::F32 | Ty::F64 | Ty::String | Ty::ByteVec) && r.chance(12) { 1 + r.below(3) as u8 }
+                  // (a forwarding codec on a field of enum or struct type: with a codec in place the macros decide optionality and the
+                  // handling of unknown variants from the field's syntactic type alone)
+                  else if cfg.allow_custom && matches!(ty, Ty::Enum(_) | Ty::Struct(_)) && r.chance(20) { 1 + r.below(3) as u8 } else { 0 };
         fields.push(Field { idx: *i, b, ty, optional: optional || (all_optional && !nil_capable), tag, skip: false, name: format!("{}{}", prefix, k), long_attr: r.chance(25), fwd });
     }
     // skipped fields (Default-able types), any position
@@ -515,7 +518,7 @@ pub fn gen_pair(r: &mut Rng, cfg: &GenCfg, focus: usize, prefix: &str) -> Option
             let mut u = Universe { defs: vec![Def::Enum(e)] };
             let mut s = plain_struct(r, &Universe { defs: vec![] }, cfg, format!("{}T1", prefix));
             let tag = if r.chance(25) { Some(*r.pick(&TAGS)) } else { None };
-            insert_first(&mut s, Field { idx: 0, b: false, ty: Ty::Enum(0), optional: true, tag, skip: false, name: "choice".into(), long_attr: r.bool_(), fwd: 0 }, r);
+            insert_first(&mut s, Field { idx: 0, b: false, ty: Ty::Enum(0), optional: true, tag, skip: false, name: "choice".into(), long_attr: r.bool_(), fwd: if cfg.allow_custom && r.chance(40) { 1 + r.below(3) as u8 } else { 0 } }, r);
             u.defs.push(Def::Struct(s));
             fix_b(&mut u);
             let mut n = u.clone();
